@@ -3,6 +3,7 @@ DefRecv = 4194304
 DefSend = 2147483647
 Cap = 8388608
 Big = 4194400
+H = 5242880
 S = 100
 L = 1000
 Mutant = 0
